@@ -296,3 +296,219 @@ Proof.
   exfalso. destruct (E2 ltac:(discriminate)) as [[e X]|[_ X]]; [rewrite Hex in X; discriminate X|apply X; exact Hr].
 Qed.
 
+
+Lemma final_not_msg s x : final s <> RMsg x.
+Proof. unfold final. destruct (rErr s) as [e|]; [destruct (0 <=? e); discriminate|]. destruct (tr s) as [[| |]|]; discriminate. Qed.
+
+(* ---- single-response methods, while the caller's context is live ---- *)
+Record Single (s : st) (rd : list ev) (lg : list res) : Prop := {
+  s_probe : forall x, pCR s = Some (PWait2 x) -> msgs_of lg = [] /\ datas rd = [x] ++ hold s /\ libCancel s = false;
+  s_idle : done s = false -> pCR s <> Some PGot2 -> (forall x, pCR s <> Some (PWait2 x)) ->
+           msgs_of lg = [] /\ datas rd = hold s /\ libCancel s = false;
+  s_once : msgs_of lg = [] \/
+           exists x, msgs_of lg = [x] /\ datas rd = [x] /\ rph s = RExit /\ rErr s = None /\ tr s = Some 0;
+  s_cancel : libCancel s = true -> done s = true;
+  s_wait : pCR s = Some PWait -> done s = true -> rph s = RExit;
+  s_got2 : pCR s = Some PGot2 -> msgs_of lg = [];
+  s_err : rErr s <> None -> done s = true \/ lock_held s = true
+}.
+
+Definition SingleInv (s : st) (rd : list ev) (lg : list res) : Prop :=
+  respStream s = false -> cctx s = 0 -> Single s rd lg.
+
+Lemma single_init b0 e0 : SingleInv (init false b0 e0) [] [].
+Proof.
+  intros _ _. constructor; cbn; auto; try discriminate.
+Qed.
+
+Lemma start_fields s x s' :
+  apply_start s x = Some s' ->
+  respStream s' = respStream s /\ (cctx s' = 0 -> cctx s = 0) /\ rph s' = rph s /\ done s' = done s /\ libCancel s' = libCancel s /\
+  rErr s' = rErr s /\ tr s' = tr s /\
+  (pCR s' = pCR s \/ (pCR s = None /\ pCR s' = Some PStart)).
+Proof.
+  destruct x; unfold apply_start.
+  - destruct (pCR s) eqn:Ep; intro Hs; [discriminate|]. injection Hs as <-. cbn. repeat split; auto.
+  - destruct (Nat.ltb (avail s) (length (body s))); intro Hs; [|discriminate]. injection Hs as <-. cbn. repeat split; auto.
+  - destruct (ended s); intro Hs; [discriminate|]. injection Hs as <-. cbn. repeat split; auto.
+  - intro Hs. injection Hs as <-. destruct (cctx s =? 0) eqn:Ec; cbn; repeat split; auto; intro X; discriminate X.
+  - intro Hs. injection Hs as <-. destruct (cctx s =? 0) eqn:Ec; cbn; repeat split; auto; intro X; discriminate X.
+Qed.
+
+Lemma single_start s x s' rd lg : SingleInv s rd lg -> apply_start s x = Some s' -> SingleInv s' rd lg.
+Proof.
+  intros S Hs Hr Hc. destruct (start_fields _ _ _ Hs) as [E1 [E2 [E3 [E4 [E5 [E6 [E7 E8]]]]]]].
+  rewrite E1 in Hr. specialize (S Hr (E2 Hc)). destruct S as [A B C D W G E].
+  unfold hold, lock_held in *. constructor; unfold hold, lock_held; rewrite ?E3, ?E4, ?E5, ?E6, ?E7.
+  - intros y Hx. destruct E8 as [E8|[_ E8]]; rewrite E8 in Hx; [exact (A y Hx)|discriminate Hx].
+  - intros Hd Hn Hp. destruct E8 as [E8|[E8 E9]].
+    + rewrite E8 in Hn, Hp. exact (B Hd Hn Hp).
+    + apply B; [exact Hd|rewrite E8; discriminate|intro y; rewrite E8; discriminate].
+  - exact C.
+  - exact D.
+  - intros Hw. destruct E8 as [E8|[_ E8]]; rewrite E8 in Hw; [exact (W Hw)|discriminate Hw].
+  - intros Hw. destruct E8 as [E8|[_ E8]]; rewrite E8 in Hw; [exact (G Hw)|discriminate Hw].
+  - exact E.
+Qed.
+
+Lemma internal_static s a s' r : In (a, (s', r)) (internal s) -> respStream s' = respStream s /\ cctx s' = cctx s.
+Proof.
+  intro Hin. unfold internal in Hin. apply in_app_or in Hin. destruct Hin as [Hin|Hin].
+  - apply in_map_iff in Hin. destruct Hin as [[s2 r2] [Heq Hin]]. injection Heq as <- -> ->.
+    unfold reader_steps in Hin. destruct (rph s) eqn:Eph; [| | |destruct Hin].
+    all: split_in Hin.
+    all: try match goal with H : _ = (_, _) |- _ => injection H as <- <- end.
+    all: unfold finish, upd, set_ph; cbn; split; reflexivity.
+  - destruct (pCR s) as [p|] eqn:Ep; [|destruct Hin].
+    apply in_map_iff in Hin. destruct Hin as [[s2 r2] [Heq Hin]]. injection Heq as <- -> ->.
+    unfold receiver_steps in Hin. destruct p.
+    all: split_in Hin.
+    all: repeat match goal with
+                | H : (if ?c then _ else _) = (_, _) |- _ => destruct c eqn:?
+                | H : match ?x with _ => _ end = (_, _) |- _ => destruct x eqn:?
+                end.
+    all: try match goal with H : _ = (_, _) |- _ => unfold ret in H; injection H as <- <- end.
+    all: unfold finish, upd, set_ph; cbn; split; first [reflexivity|symmetry; assumption|assumption].
+Qed.
+
+Lemma single_step b0 s a s' r rd dn lg rd' dn' lg' :
+  Inv b0 s rd dn lg -> SingleInv s rd lg -> In (a, (s', r)) (internal s) -> body_step s s' rd dn rd' dn' ->
+  lg' = (match a, r with CR, Some x => lg ++ [x] | _, _ => lg end) ->
+  SingleInv s' rd' lg'.
+Proof.
+  intros I S Hin Hb -> Hr Hc. destruct (internal_static _ _ _ _ Hin) as [Es Ec]. rewrite Es in Hr. rewrite Ec in Hc.
+  specialize (S Hr Hc). destruct S as [SA SB SC SD SW SG SE]. destruct I as [_ _ _ C D DR F _ _ _ _].
+  assert (Hsc : sctx s = if libCancel s then 1 else 0) by (unfold sctx; rewrite Hc; reflexivity).
+  unfold hold, drain_ok, body_step in *.
+  unfold internal in Hin. apply in_app_or in Hin. destruct Hin as [Hin|Hin].
+  - apply in_map_iff in Hin. destruct Hin as [[s2 r2] [Heq Hin]]. injection Heq as <- -> ->.
+    unfold reader_steps in Hin. destruct (rph s) eqn:Eph; [| | |destruct Hin].
+    all: split_in Hin.
+    all: try match goal with H : _ = (_, _) |- _ => injection H as <- <- end.
+    all: unf.
+    all: repeat match goal with E : body ?s = _ |- _ => rewrite E in *; clear E end.
+    all: cbn [draining] in Hb.
+    all: destruct Hb as [[Hb1 [-> ->]]|[e' [Hb1 [-> ->]]]].
+    all: try (exfalso; first [discriminate Hb1 | (apply cons_neq in Hb1; exact Hb1) | (symmetry in Hb1; apply cons_neq in Hb1; exact Hb1)]).
+    all: try (injection Hb1 as <-).
+    all: assert (Hm : msgs_of lg = []) by (destruct SC as [Hm|[x0 [_ [_ [X _]]]]]; [exact Hm|discriminate X]).
+    all: try (assert (Hlc : libCancel s = true)
+                by (destruct (libCancel s); [reflexivity|rewrite Hsc in *; discriminate])).
+    all: constructor; unfold hold; unf; rewrite ?datas_snoc; cbn [app]; rewrite ?app_nil_r.
+    all: try (left; exact Hm).
+    all: try exact SD.
+    all: try (intros _; reflexivity).
+    all: try (intros _ _; reflexivity).
+    all: try (let X := fresh in let Y := fresh in intros X Y; specialize (SW X Y); discriminate SW).
+    all: try (let y := fresh in let Hy := fresh in intros y Hy; destruct (SA y Hy) as [M [Dd L]];
+              first [ (rewrite Hlc in L; discriminate L)
+                    | (split; [exact M|split; [rewrite Dd; cbn [app]; reflexivity|exact L]]) ]).
+    all: try (let Hd := fresh in let Hn := fresh in let Hp := fresh in intros Hd Hn Hp;
+              first [ (rewrite (SD Hlc) in Hd; discriminate Hd)
+                    | (destruct (SB Hd Hn Hp) as [M [Dd L]]; split; [exact M|split; [rewrite Dd; cbn [app]; reflexivity|exact L]]) ]).
+    all: try (let X := fresh in intro X; discriminate X).
+    all: try (intros _; exact Hm).
+    all: try (let X := fresh in intro X; unfold lock_held in *; cbn; rewrite ?Eph in SE;
+              first [ (left; reflexivity) | (right; reflexivity)
+                    | (destruct (SE X) as [Y|Y]; [left; exact Y|first [discriminate Y|right; exact Y]]) ]).
+  - destruct (pCR s) as [p|] eqn:Ep; [|destruct Hin].
+    apply in_map_iff in Hin. destruct Hin as [[s2 r2] [Heq Hin]]. injection Heq as <- -> ->.
+    unfold receiver_steps in Hin. destruct p.
+    all: split_in Hin.
+    all: repeat match goal with
+                | H : (if ?c then _ else _) = (_, _) |- _ => destruct c eqn:?
+                | H : match ?x with _ => _ end = (_, _) |- _ => destruct x eqn:?
+                end.
+    all: try match goal with H : _ = (_, _) |- _ => unfold ret in H; injection H as <- <- end.
+    all: unf. all: body_same Hb.
+    all: try (assert (Hlc : libCancel s = true)
+                by (destruct (libCancel s); [reflexivity|rewrite Hsc in *; discriminate])).
+    all: constructor; unfold hold; unf; rewrite ?msgs_snoc, ?final_no_msg; cbn [app]; rewrite ?app_nil_r.
+    all: try (exfalso; congruence).
+    all: try exact SD.
+    all: try exact SC.
+    all: try exact SG.
+    all: try exact SE.
+    all: try (let X := fresh in intro X; unfold lock_held in *; cbn [rph];
+              first [ (left; assumption) | (left; reflexivity)
+                    | (destruct (SE X) as [Y|Y]; cbn in Y;
+                       repeat match goal with E : rph _ = _ |- _ => rewrite E in Y; clear E end;
+                       first [discriminate Y|(left; exact Y)|(right; exact Y)]) ]).
+    all: try (intros _; exact (proj1 (SA _ eq_refl))).
+    all: try (let y := fresh in let X := fresh in intros y X; discriminate X).
+    all: try (let X := fresh in intro X; discriminate X).
+    all: try (intros _ X; discriminate X).
+    all: try (let Hd := fresh in let Hn := fresh in let Hp := fresh in intros Hd Hn Hp;
+              exact (SB Hd ltac:(discriminate) ltac:(intros ? ?; discriminate))).
+    all: try (let Hd := fresh in let Hn := fresh in let Hp := fresh in intros Hd Hn Hp;
+              exfalso; first [ exact (Hn eq_refl) | exact (Hp _ eq_refl) | (rewrite (SD Hlc) in Hd; discriminate Hd) ]).
+    all: try (intros _; exact SW).
+    all: try (exfalso; match goal with Hf : final _ = RMsg _ |- _ => exact (final_not_msg _ _ Hf) end).
+    all: try (let X := fresh in intro X; exfalso; congruence).
+    all: try (let y := fresh in let X := fresh in intros y X; injection X as <-;
+              destruct (done s) eqn:Ed; [specialize (SW eq_refl eq_refl); discriminate SW|];
+              destruct (SB eq_refl ltac:(discriminate) ltac:(intros ? ?; discriminate)) as [M [Dd L]];
+              split; [exact M|split; [rewrite Dd; reflexivity|exact L]]).
+    all: try (intros _; assumption).
+    all: try (exfalso; destruct (C eq_refl) as [X _]; discriminate X).
+    all: try (destruct SC as [M|[? [_ [_ [X _]]]]]; [left; exact M|discriminate X]).
+    all: try (match goal with
+              | Hf : final ?s0 = REOF |- _ =>
+                  destruct (final_eof _ Hf) as [Hre Htr]; destruct (C eq_refl) as [_ Hex];
+                  destruct (SA _ eq_refl) as [M [Dd _]]; right; eexists; rewrite M; cbn [app];
+                  split; [reflexivity|]; rewrite Hex in Dd; cbn [app] in Dd;
+                  split; [exact Dd|split; [exact Hex|split; [exact Hre|]]];
+                  destruct Htr as [Htr|Htr]; [exact Htr|exfalso; exact (F Hex Hre Htr)]
+              end).
+    all: try (intros _ _ _; destruct (SB eq_refl) as [M [Dd L]]; [congruence|intros; congruence|auto]).
+    all: destruct (rErr s) as [e|] eqn:Ee; cbn [orb]; rewrite ?Bool.orb_true_r, ?Bool.orb_false_r.
+    all: try (let X := fresh in intro X; discriminate X).
+    all: try (intros _; reflexivity).
+    all: try exact SD.
+    all: try (left; destruct (0 <=? e); rewrite app_nil_r; exact (SG eq_refl)).
+    all: try (left; rewrite app_nil_r; exact (SG eq_refl)).
+    all: try (let X := fresh in intros X _ _; exfalso; destruct SE as [Y|Y]; [discriminate|congruence|discriminate Y]).
+    all: try (intros _; left; reflexivity).
+    all: try (let X := fresh in intro X; destruct (SE X) as [Y|Y]; [left; exact Y|discriminate Y]).
+Qed.
+
+Theorem single_reachable rs b0 e0 s rd dn lg : hreach rs b0 e0 s rd dn lg -> SingleInv s rd lg.
+Proof.
+  induction 1 as [|s x s' rd dn lg _ IH Hs|s a s' r rd dn lg rd' dn' lg' R IH Hin Hb Hl].
+  - intros Hr Hc. cbn in Hr. subst rs. apply single_init; reflexivity.
+  - eapply single_start; eauto.
+  - eapply single_step; eauto. eapply inv_reachable; eauto.
+Qed.
+
+Lemma respStream_const rs b0 e0 s rd dn lg : hreach rs b0 e0 s rd dn lg -> respStream s = rs.
+Proof.
+  induction 1 as [|s x s' rd dn lg _ IH Hs|s a s' r rd dn lg rd' dn' lg' R IH Hin Hb Hl].
+  - reflexivity.
+  - destruct (start_fields _ _ _ Hs) as [E _]. congruence.
+  - destruct (internal_static _ _ _ _ Hin) as [E _]. congruence.
+Qed.
+
+Lemma in_msgs l x : In (RMsg x) l -> In x (msgs_of l).
+Proof. intro H. unfold msgs_of. apply in_flat_map. exists (RMsg x). split; [exact H|left; reflexivity]. Qed.
+
+(* single-response methods (unary and client-streaming), caller's context still live: the caller is handed a
+   message only when the response body held exactly one message followed by a trailer frame that says OK, the
+   reader has finished, and no error was recorded; and it is handed at most one. *)
+Theorem single_response_exactly_one b0 e0 s rd dn lg x :
+  hreach false b0 e0 s rd dn lg -> cctx s = 0 -> In (RMsg x) lg ->
+  msgs_of lg = [x] /\ datas rd = [x] /\ rph s = RExit /\ rErr s = None /\ tr s = Some 0.
+Proof.
+  intros R Hc Hin. pose proof (single_reachable _ _ _ _ _ _ _ R (respStream_const _ _ _ _ _ _ _ R) Hc) as S.
+  apply in_msgs in Hin. destruct (s_once _ _ _ S) as [M|[y [M rest]]]; rewrite M in Hin.
+  - destruct Hin.
+  - destruct Hin as [<-|[]]. split; [exact M|exact rest].
+Qed.
+
+(* ... and while the context is live, nothing but a failure can follow: a second message makes the call fail
+   with Internal and never reaches the caller *)
+Theorem single_response_at_most_one b0 e0 s rd dn lg :
+  hreach false b0 e0 s rd dn lg -> cctx s = 0 -> (length (msgs_of lg) <= 1)%nat.
+Proof.
+  intros R Hc. pose proof (single_reachable _ _ _ _ _ _ _ R (respStream_const _ _ _ _ _ _ _ R) Hc) as S.
+  destruct (s_once _ _ _ S) as [M|[y [M _]]]; rewrite M; cbn; lia.
+Qed.
